@@ -424,12 +424,72 @@ def option_paths():
     return [p for p in out if p[0] not in ("stage", "variables", "executors")]
 
 
+def backend_options(tree):
+    """Dosini.options_for_backend: [(backend name, [option names the reader accepts for that backend])].
+
+    The function is an if/elif chain on `backend` (== "x" / in [...]) whose branches extend options['required'] /
+    options['optional'] with literal lists.  Anything else in a branch makes the whole table fall back to one entry
+    `*` holding every string literal that is extended anywhere in the function (a superset: good enough for the
+    harness, which uses the names as candidate variable names)."""
+    fn = genconst.find_function(tree, "Dosini", "options_for_backend")
+
+    def extended(stmts):
+        out = []
+        for st in stmts:
+            for node in ast.walk(st):
+                if isinstance(node, ast.Call) and isinstance(node.func, ast.Attribute) and node.func.attr in ("extend", "append"):
+                    for a in node.args:
+                        for c in ast.walk(a):
+                            if isinstance(c, ast.Constant) and isinstance(c.value, str):
+                                out.append(c.value)
+        return out
+
+    def backends_of(test):
+        if isinstance(test, ast.Compare) and isinstance(test.left, ast.Name) and test.left.id == "backend" \
+                and len(test.ops) == 1 and len(test.comparators) == 1:
+            c = test.comparators[0]
+            if isinstance(test.ops[0], ast.Eq) and isinstance(c, ast.Constant) and isinstance(c.value, str):
+                return [c.value]
+            if isinstance(test.ops[0], ast.In) and isinstance(c, (ast.List, ast.Tuple, ast.Set)) \
+                    and all(isinstance(e, ast.Constant) and isinstance(e.value, str) for e in c.elts):
+                return [e.value for e in c.elts]
+        return None
+
+    table = []
+    try:
+        chains = [st for st in fn.body if isinstance(st, ast.If)]
+        if len(chains) != 1:
+            raise Unsupported("options_for_backend: expected one if/elif chain")
+        node = chains[0]
+        while True:
+            bs = backends_of(node.test)
+            if bs is None:
+                raise Unsupported("options_for_backend: test " + ast.dump(node.test))
+            names = extended(node.body)
+            for b in bs:
+                table.append((b, sorted(set(names))))
+            if len(node.orelse) == 1 and isinstance(node.orelse[0], ast.If):
+                node = node.orelse[0]
+            elif not node.orelse:
+                break
+            else:
+                raise Unsupported("options_for_backend: else branch")
+    except Unsupported:
+        table = [("*", sorted(set(extended(fn.body))))]
+    return table
+
+
 def tables():
     tree = genconst.parse("model/frontends/dosini.py")
     keys, tm = known_keys(tree)
     dump, passthrough = extract_dump(tree)
     parse = extract_parse(tree, tm)
-    return dict(dump=dump, passthrough=passthrough, parse=parse, known=keys, options=option_paths())
+    backends = backend_options(tree)
+    # option names of some backend that are NOT legacy keys: for the writer and the reader they are ordinary
+    # component variables (the simulator backend reads its options from the variables of the component)
+    backend_only = sorted({n for _b, names in backends for n in names} - set(keys))
+    return dict(dump=dump, passthrough=passthrough, parse=parse, known=keys, options=option_paths(),
+                backends=backends, backend_only=backend_only)
 
 
 # ------------------------------------------------------------------------------------------
@@ -485,6 +545,9 @@ def generate():
     L.append("def knownKeys : List (List Char) := [" + ", ".join(lchars(k) for k in t["known"]) + "]\n")
     L.append("def passthrough : List Path := [" + ", ".join(lpath(p) for p in t["passthrough"]) + "]\n")
     L.append("def optionPaths : List Path := [\n" + ",\n".join("  " + lpath(p) for p in t["options"]) + "]\n")
+    L.append("/-- `Dosini.options_for_backend`: backend ↦ option names the reader accepts for it -/")
+    L.append("def backendTable : List (List Char × List (List Char)) := [\n" + ",\n".join(
+        "  (%s, [%s])" % (lchars(b), ", ".join(lchars(n) for n in names)) for b, names in t["backends"]) + "]\n")
     L.append("end St4sd.Gen.C19")
     return {TARGET: "\n".join(L) + "\n"}
 
